@@ -2,6 +2,7 @@ package props
 
 import (
 	"fmt"
+	"math"
 	"sort"
 	"testing"
 
@@ -147,6 +148,74 @@ func c04ShippedRun(c c04Shipped) error {
 	return nil
 }
 
+// bernstein returns the deviation t with P(|X - Np| >= t) <= 2e-15 for X ~ Bin(N, p).
+func bernstein(N int, p float64) float64 {
+	v := float64(N) * p * (1 - p)
+	return (23 + math.Sqrt(529+276*v)) / 2
+}
+
+func c04FreqRun(c supWL) error {
+	w := c.W
+	kept := oracle.Kept(w.Words)
+	if !oracle.PremiseOK(kept) || !oracle.AllCapitalisable(kept) || len(kept) < 2 {
+		return &ev.Skip{Why: "premise"}
+	}
+	r, _, err := buildWL(w)
+	if err != nil {
+		return &ev.Skip{Why: "empty"}
+	}
+	L, m, N := w.Length, len(kept), 4000
+	idx := map[string]int{}
+	for i, k := range kept {
+		idx[k] = i
+		idx[oracle.Title(k)] = i
+	}
+	capCnt := make([]int, L)
+	wordCnt := make([][]int, L)
+	for i := range wordCnt {
+		wordCnt[i] = make([]int, m)
+	}
+	for it := 0; it < N; it++ {
+		o := callRaw(&tape.Tape{TailKey: ev.Mix64(c.Key, uint64(it)) | 1, Cap: 1 << 22}, r.Generate)
+		if o.Panic != nil || o.Pw == nil {
+			return fmt.Errorf("Generate failed: %v %v", o.Panic, o.Err)
+		}
+		atoms := o.Pw.Tokens().Atoms()
+		if len(atoms) != L {
+			return &ev.Skip{Why: "token layout not as documented (C05)"}
+		}
+		for p, a := range atoms {
+			i, known := idx[a]
+			if !known {
+				return &ev.Skip{Why: "token layout not as documented (C05)"}
+			}
+			wordCnt[p][i]++
+			if a != kept[i] {
+				capCnt[p]++
+			}
+		}
+	}
+	ev.Leaves(int64(N * L))
+	pc := 0.5
+	if w.Scheme == "one" {
+		pc = 1 / float64(L)
+	}
+	for p := 0; p < L; p++ {
+		if d := math.Abs(float64(capCnt[p]) - float64(N)*pc); d > bernstein(N, pc) {
+			return fmt.Errorf("scheme %s, Length %d: position %d was capitalised in %d of %d generations from pseudo-random streams, expected %.0f (deviation %.0f, bound %.0f)", w.Scheme, L, p, capCnt[p], N, float64(N)*pc, d, bernstein(N, pc))
+		}
+		for i := 0; i < m; i++ {
+			pw := 1 / float64(m)
+			if d := math.Abs(float64(wordCnt[p][i]) - float64(N)*pw); d > bernstein(N, pw) {
+				return fmt.Errorf("Length %d: word %q appeared at position %d in %d of %d generations from pseudo-random streams, expected %.0f (deviation %.0f, bound %.0f)", L, kept[i], p, wordCnt[p][i], N, float64(N)*pw, d, bernstein(N, pw))
+			}
+		}
+	}
+	ev.Class("raw_frequencies_scheme=" + w.Scheme)
+	ev.NonTrivial(fmt.Sprintf("freq|%+v", w))
+	return nil
+}
+
 func TestC04(t *testing.T) {
 	if !requireHooks(t) {
 		return
@@ -174,6 +243,19 @@ func TestC04(t *testing.T) {
 		ev.Sample("c04_long_support", 2, c)
 		return wlSupport(c)
 	})
+	// raw pseudo-random streams (no forcing, so this also speaks when an
+	// implementation draws outside the announced bounded draw and the tree
+	// enumeration stops as inconclusive): per position, the frequency of each
+	// word, of "capitalised" under scheme random and of "the capitalised one"
+	// under scheme one, within a Bernstein bound of false-alarm probability
+	// 2e-15 per count
+	ev.Check(t, "c04_raw_frequencies", ev.N(16, 160), func(t *rapid.T) supWL {
+		w := gen.WLSpec{Words: gen.WordList(t, gen.WordListOpts{Min: 2, Max: 4, AllCapable: true}),
+			Length: rapid.IntRange(20, 100).Draw(t, "long_length"),
+			Scheme: rapid.SampledFrom([]string{"one", "random", "random"}).Draw(t, "scheme"),
+			Sep:    gen.SepSpec{Kind: "const", Const: rapid.SampledFrom([]string{"", "-"}).Draw(t, "sep")}}
+		return supWL{W: w, Key: rapid.Uint64().Draw(t, "key")}
+	}, c04FreqRun)
 	ev.Fixed(t, "c04_shipped", func(do func(c04Shipped) bool) {
 		// split the index range of both lists over the shards
 		for _, l := range []string{"words", "syllables"} {
